@@ -53,6 +53,40 @@ def height (lens : List Nat) : Nat := lens.foldl max 0
 def assignCodes (lens : List Nat) : List Nat :=
   assignLoop lens (baseCodes lens (height lens))
 
+/-! ## Encoder side: the dummy second table and the padding tricks -/
+
+/-- `generate_prefix_code`, single-table case: lengths of the dummy second
+table for alphabet size `as` (`cl0` for the first `(2 << cl0) - as` symbols —
+unsigned arithmetic — and `cl0 + 1` for the rest). -/
+def dummyLens (as : Nat) : List Nat :=
+  let c := Gen.cl0 as
+  let nShort := ((2 <<< c) % M32 + M32 - as % M32) % M32
+  (List.range as).map (fun v => if v < nShort then c else c + 1)
+
+/-- `num_selectors = (nm + GROUP_SIZE - 1) / GROUP_SIZE`. -/
+def numSelectors (nm : Nat) : Nat := (nm + Gen.GROUP_SIZE - 1) / Gen.GROUP_SIZE
+
+/-- `encode()`: number of padding bits for a block of `cost` bits so far. -/
+def padBits (cost : Nat) : Nat := (8 - (cost &&& 7)) &&& 7
+
+/-- `tree_pad = j >> 1`. -/
+def treePad (cost : Nat) : Nat := padBits cost >>> 1
+
+/-- dummy selector count `j & 1`. -/
+def dummySelectors (cost : Nat) : Nat := padBits cost &&& 1
+
+/-- `transmit()`: start value sent for the first table. -/
+def paddedStart (a pad : Nat) : Nat := if a < 4 then a + pad else a - pad
+
+/-- `transmit()`: the values `a` takes while `while (a < c) a++` /
+`while (a > c) a--` walks from the start value to `c` (fuel = distance). -/
+def deltaWalk : Nat → Nat → Nat → List Nat
+  | 0, a, _ => [a]
+  | fuel + 1, a, c =>
+    if a < c then a :: deltaWalk fuel (a + 1) c
+    else if a > c then a :: deltaWalk fuel (a - 1) c
+    else [a]
+
 /-! ## Decoder side: `make_tree` -/
 
 def MAXL : Nat := Gen.MAX_CODE_LENGTH
